@@ -1,22 +1,25 @@
 (* C11: results are invariant under where in the buffer the text starts.
-   PROVED for the model of ParseSIPMsg (every flag set, every header / contact capacity, fresh
-   object) and of every stand-alone streaming parser under it: ParseCallIDVal, ParseUIntVal /
+   PROVED, for the model, for ParseSIPMsg (every flag set, every header / contact capacity, fresh
+   object) and for every stand-alone streaming parser: ParseCallIDVal, ParseUIntVal /
    ParseExpiresVal, ParseCLenVal, ParseCSeqVal, ParseFLine (Shift.v), ParseNameAddrPVal for every
-   header kind (ShiftFb.v), ParseAllContactValues for every capacity, the P-Asserted-Identity list,
-   ParseHdrLine, ParseHeaders (ShiftMsg.v).  For every buffer, every start offset inside it, every
-   sequence of junk bytes put in front, valid input or not: the call on the longer buffer, started
-   |junk| further on, returns the same verdict, the returned offset moved by |junk|, every numeric /
-   type / flag value unchanged, every reported field moved by exactly |junk| and every field that was
-   not set still unset.  The relations (Rci, Rui, Rcs, Rfl, R0, Rct0, Rpa0, Rhdr, Rhs0, Rmsg) say, state
-   by state, which fields are live; reading a field back (zget) is shift invariant.  The rules behind
-   it, `C11_shift_rule` and its position-indexed variant, are parser independent.
+   header kind and ParseOnePAI (ShiftFb.v), ParseAllContactValues for every capacity, the
+   P-Asserted-Identity list, ParseHdrLine, ParseHeaders (ShiftMsg.v), SkipQuoted, ParseTokenParam
+   for every flag set, ParseAllURIParams and ParseAllURIHdrs for every capacity (ShiftTok.v).
+   For every buffer, every start offset inside it, every sequence of junk bytes put in front, valid
+   input or not: the call on the longer buffer, started |junk| further on, returns the same verdict,
+   the returned offset moved by |junk|, every numeric / type / flag value unchanged, every reported
+   field moved by exactly |junk| and every field that was not set still unset.  The relations (Rci,
+   Rui, Rcs, Rfl, R0, Rct0, Rpa0, Rtp0, Rul0, Ruh0, Rhdr, Rhs0, Rmsg) say, state by state, which
+   fields are live; reading a field back (zget) is shift invariant.  The rules behind it,
+   `C11_shift_rule` and its position-indexed variant, are parser independent.
+   Two places where the Go code looks at position 0 / the byte before the text are where the
+   position index matters: the parameters span of a name-addr value uses offset 0 as "not started",
+   and the white-space-terminated token parameter looks at buf[i-1] - both only in states that
+   cannot be reached before the first byte has been consumed.
    Offsets are in N: the point where the text ends at the 65,535-byte addressing limit is not part
-   of the statement (C13 / C04 oracle and correspondence).
-   Relocation of a parsed URI: every present component moves by the same amount, exact inside 16 bits.
-   PARTIAL: not proved for ParseTokenParam and the URI parameter / URI header lists (not used by the
-   message parser): shift oracle (junk prefixes, k up to 65535 - len) and the correspondence at
-   offsets 0 and k. *)
-From Sipsp Require Import Harness URIViews Shift ShiftFb ShiftMsg.
+   of the statement (oracle and correspondence cover it).
+   Relocation of a parsed URI: every present component moves by the same amount, exact inside 16 bits. *)
+From Sipsp Require Import Harness URIViews Shift ShiftFb ShiftMsg ShiftTok.
 
 Theorem C11_shift_rule : forall (S : Type) (iter : list byte -> list byte -> N -> S -> ires S) (J : list byte) (R : S -> S -> Prop),
   (forall pre rest i s s', i = nnat (length pre) -> R s s' ->
@@ -55,6 +58,32 @@ Theorem C11_contacts : forall n junk buf offs, offs <= nnat (length buf) ->
     (parse_all_contacts buf offs (contacts_init (repeat pfrom0 n)))
     (parse_all_contacts (junk ++ buf) (offs + nnat (length junk)) (contacts_init (repeat pfrom0 n))).
 Proof. exact contacts_shift. Qed.
+
+(* SkipQuoted, ParseTokenParam, the two URI lists *)
+Theorem C11_quoted : forall junk buf offs, offs <= nnat (length buf) ->
+  res_shift (rev junk) (fun _ _ : unit => True) (skip_quoted buf offs) (skip_quoted (junk ++ buf) (offs + nnat (length junk))).
+Proof. exact quoted_shift. Qed.
+Theorem C11_token_param : forall flags junk buf offs, offs <= nnat (length buf) ->
+  res_shiftI (rev junk) (Rtp0 (nnat (length junk))) (parse_tokparam flags buf offs tokparam0) (parse_tokparam flags (junk ++ buf) (offs + nnat (length junk)) tokparam0).
+Proof. exact tokparam_shift. Qed.
+Theorem C11_uri_params : forall flags n junk buf offs, offs <= nnat (length buf) ->
+  res_shiftI (rev junk) (Rul0 (nnat (length junk)))
+    (parse_all_uri_params flags buf offs (uparams_init (repeat uriparam0 n)))
+    (parse_all_uri_params flags (junk ++ buf) (offs + nnat (length junk)) (uparams_init (repeat uriparam0 n))).
+Proof. exact uparams_shift. Qed.
+Theorem C11_uri_hdrs : forall flags n junk buf offs, offs <= nnat (length buf) ->
+  res_shiftI (rev junk) (Ruh0 (nnat (length junk)))
+    (parse_all_uri_hdrs flags buf offs (uhdrs_init (repeat tokparam0 n)))
+    (parse_all_uri_hdrs flags (junk ++ buf) (offs + nnat (length junk)) (uhdrs_init (repeat tokparam0 n))).
+Proof. exact uhdrs_shift. Qed.
+Theorem C11_one_pai : forall junk buf offs, offs <= nnat (length buf) ->
+  res_shiftI (rev junk) (R0 (nnat (length junk))) (parse_one_pai buf offs pfrom0) (parse_one_pai (junk ++ buf) (offs + nnat (length junk)) pfrom0).
+Proof.
+  intros junk buf offs Ho. pose proof (nameaddr_shift HdrPAI junk buf offs Ho) as H. unfold parse_one_pai.
+  destruct (parse_nameaddr HdrPAI buf offs pfrom0) as [o e s| |], (parse_nameaddr HdrPAI (junk ++ buf) _ pfrom0) as [o' e' s'| |]; try contradiction; auto.
+  destruct H as (-> & <- & HR). pose proof HR as (_ & (B1 & _) & _). rewrite B1.
+  destruct (_ && _); (split; [reflexivity|]); (split; [reflexivity|exact HR]).
+Qed.
 
 (* the whole message: mrel = same kind of result, offset + |junk|, same verdict, objects related by Rmsg
    (first line by Rfl, header list and parsed values by Rhs0, body / raw message / buffer length / start
